@@ -194,6 +194,61 @@ func buildSave(p *Program, tier string) ([]*Unit, []UnitError) {
 	} else {
 		units = append(units, cu)
 	}
+	// the two public entry points hand their package, the resolver (the caller's, or gopackages' for the package's
+	// directory) and ioutil.WriteFile to save, once, and return what save returns
+	// (other calls in the wrappers are not forbidden: that they write nothing is not decided here)
+	for _, w := range []struct{ fn, name string }{{"Save", "Save"}, {"SaveWithResolver", "SaveWithResolver"}} {
+		w := w
+		wopts := &UnitOpts{Trace: true}
+		wopts.AtExit = func(ex *Exec, frm *frame, g string, st *State, res []Val) {
+			var sv, mk *Event
+			nCalls, nSave := 0, 0
+			for i := range ex.trace {
+				ev := &ex.trace[i]
+				// at any inlining depth: Save may go through SaveWithResolver
+				if ev.Kind != "call" {
+					continue
+				}
+				nCalls++
+				switch {
+				case strings.HasSuffix(ev.Callee, ".(*Package).save"):
+					nSave++
+					sv = ev
+				case strings.HasSuffix(ev.Callee, "gopackages.New"):
+					mk = ev
+				}
+			}
+			structural := func(label string, ok bool, what string) {
+				goal := "true"
+				if !ok {
+					goal = "false"
+				}
+				o := ex.oblige(w.name+"#entry:"+label, "frame", "true", goal, what, "")
+				o.Guard = "true"
+			}
+			shape := nSave == 1 && sv.Res != nil && len(sv.Args) == 3 && len(res) == 1 && (w.fn != "Save" || (mk != nil && mk.Res != nil && len(mk.Args) == 1))
+			structural("one_save_call", shape, fmt.Sprintf("%d calls in %s, %d of them to save", nCalls, w.fn, nSave))
+			if !shape {
+				return
+			}
+			wf := funcVals[sv.Args[2].T]
+			structural("writes_through_ioutil_WriteFile", wf != nil && wf.String() == "io/ioutil.WriteFile", "the write function handed to save is io/ioutil.WriteFile")
+			ex.oblige(w.name+"#entry:saves_the_receiver", "schema", sv.Guard, eq(sv.Args[0].T, frm.params["p"].T), "save's receiver is the package Save was called on", "")
+			ex.oblige(w.name+"#entry:returns_what_save_returns", "schema", g, eq(res[0].T, sv.Res.T), "the result is save's result", "")
+			if w.fn == "Save" {
+				env := &SpecEnv{ex: ex, vars: map[string]Val{"p": frm.params["p"]}, cur: st, old: frm.entry, pkg: frm.fn.Pkg.Pkg}
+				ex.obligeSpec(env, w.name+"#entry:resolver_for_the_packages_directory", "schema", mk.Guard, "$a == old(p.Dir)", map[string]Val{"$a": mk.Args[0]})
+				ex.oblige(w.name+"#entry:that_resolver_handed_to_save", "schema", sv.Guard, eq(iRef(sv.Args[1].T), mk.Res.T), "save's resolver is the one gopackages.New returned", "")
+			} else {
+				ex.oblige(w.name+"#entry:callers_resolver_handed_to_save", "schema", sv.Guard, eq(sv.Args[1].T, frm.params["resolver"].T), "save's resolver is the caller's", "")
+			}
+		}
+		wu, werr := p.verifyFunc(pkgDecorator+".(*Package)."+w.fn, wopts)
+		if werr != nil {
+			return units, []UnitError{{w.name, werr.Error()}}
+		}
+		units = append(units, wu)
+	}
 	// the path each file is saved to is the name of the token.File it was parsed into (not a //line-adjusted position)
 	dopts := &UnitOpts{Trace: true}
 	dopts.AtExit = func(ex *Exec, frm *frame, g string, st *State, res []Val) {
